@@ -1,7 +1,11 @@
 package main
 
 import (
+	"bytes"
+	"strconv"
+
 	"fmt"
+	lang "github.com/alligator/jqawk/src"
 	"strings"
 )
 
@@ -218,6 +222,189 @@ func longInputWorkload(count map[string]int) *Workload {
 	}
 }
 
+// ---- selector isolation (C02): every root selector selects from the JSON
+// value as it was read. A rule that changes $ while one selector's root is
+// current must not change what a later selector of the same value selects.
+
+type IsoCase struct {
+	Docs      []string `json:"docs"`
+	Selectors []string `json:"selectors"`
+}
+
+const isoProgram = `function dg(v) {
+  if (v is object) { return "O:" + v.n + ":" + v.mark + ":" + dg(v.items) + ":" + dg(v.sub) }
+  if (v is array) { return "A:" + v.length() + ":" + v[0] }
+  return "S:" + v
+}
+BEGINFILE { print "bf", dg($) }
+BEGINFILE {
+  if ($ is object) {
+    $.mark = "m"
+    $.n += 100
+    if ($.items is array) { if ($.items.length() > 0) { $.items[0] = 99 } }
+    if ($.sub is object) { $.sub.n += 1000
+      $.sub.mark = "s"
+      if ($.sub.items is array) { if ($.sub.items.length() > 0) { $.sub.items[0] = 55 } } }
+  }
+  if ($ is array) { if ($.length() > 0) { $[0] = 77 } }
+}
+BEGINFILE { print "after", dg($) }
+`
+
+func isoDigest(v *JVal, mutated bool) string {
+	if v == nil {
+		return "S:"
+	}
+	switch v.Kind {
+	case 'o':
+		n, mark := strForm(v.Get("n")), strForm(v.Get("mark"))
+		return "O:" + n + ":" + mark + ":" + isoDigestSub(v.Get("items")) + ":" + isoDigestSub(v.Get("sub"))
+	case 'a':
+		first := ""
+		if len(v.Arr) > 0 {
+			first = strForm(v.Arr[0])
+		}
+		return "A:" + strconv.Itoa(len(v.Arr)) + ":" + first
+	}
+	return "S:" + strForm(v)
+}
+
+func isoDigestSub(v *JVal) string {
+	if v == nil {
+		return "S:"
+	}
+	return isoDigest(v, false)
+}
+
+// isoMutate applies the second BEGINFILE rule to a private copy of the root.
+func isoMutate(v *JVal) *JVal {
+	cp := func(x *JVal) *JVal { c := *x; return &c }
+	set := func(o *JVal, k string, val *JVal) {
+		for i, kk := range o.Keys {
+			if kk == k {
+				o.Vals = append([]*JVal{}, o.Vals...)
+				o.Vals[i] = val
+				return
+			}
+		}
+		o.Keys = append(append([]string{}, o.Keys...), k)
+		o.Vals = append(append([]*JVal{}, o.Vals...), val)
+	}
+	num := func(x *JVal) float64 {
+		if x != nil && x.Kind == 'n' {
+			return x.Num
+		}
+		return 0
+	}
+	switch v.Kind {
+	case 'o':
+		o := cp(v)
+		set(o, "mark", &JVal{Kind: 's', Str: "m"})
+		set(o, "n", &JVal{Kind: 'n', Num: num(v.Get("n")) + 100})
+		if it := v.Get("items"); it != nil && it.Kind == 'a' && len(it.Arr) > 0 {
+			a := cp(it)
+			a.Arr = append([]*JVal{}, it.Arr...)
+			a.Arr[0] = &JVal{Kind: 'n', Num: 99}
+			set(o, "items", a)
+		}
+		if sub := v.Get("sub"); sub != nil && sub.Kind == 'o' {
+			so := cp(sub)
+			set(so, "n", &JVal{Kind: 'n', Num: num(sub.Get("n")) + 1000})
+			set(so, "mark", &JVal{Kind: 's', Str: "s"})
+			if it := sub.Get("items"); it != nil && it.Kind == 'a' && len(it.Arr) > 0 {
+				a := cp(it)
+				a.Arr = append([]*JVal{}, it.Arr...)
+				a.Arr[0] = &JVal{Kind: 'n', Num: 55}
+				set(so, "items", a)
+			}
+			set(o, "sub", so)
+		}
+		return o
+	case 'a':
+		if len(v.Arr) > 0 {
+			a := cp(v)
+			a.Arr = append([]*JVal{}, v.Arr...)
+			a.Arr[0] = &JVal{Kind: 'n', Num: 77}
+			return a
+		}
+	}
+	return v
+}
+
+func runIsoCase(c *IsoCase, keep bool) Outcome {
+	lang.VerifResetProcessState()
+	log := newEventLog(keep)
+	o := Outcome{Probes: map[string]int{}, Nontrivial: len(c.Selectors) >= 2}
+	var want strings.Builder
+	for _, d := range c.Docs {
+		r := ScanStream([]byte(d))
+		if r.Status != RefClean || len(r.Values) != 1 {
+			o.Skipped = "document outside the model's domain"
+			return o
+		}
+		for _, sel := range c.Selectors {
+			root, ok := applySel(r.Values[0].V, sel)
+			if !ok {
+				o.Skipped = "selector outside the model's domain"
+				return o
+			}
+			want.WriteString("bf " + isoDigest(root, false) + "\n")
+			want.WriteString("after " + isoDigest(isoMutate(root), true) + "\n")
+		}
+	}
+	var out bytes.Buffer
+	kind, msg := "", ""
+	func() {
+		defer func() {
+			if r := recover(); r != nil {
+				kind, msg = "panic", fmt.Sprint(r)
+			}
+		}()
+		_, err := lang.EvalProgram(isoProgram, []lang.InputFile{{Name: "docs.json", Reader: strings.NewReader(strings.Join(c.Docs, "\n"))}}, c.Selectors, &out, false)
+		kind, msg = classifyErr(err)
+	}()
+	log.add('I', 0, "RUN selectors=%v kind=%s msg=%q stdout=%q", c.Selectors, kind, msg, truncate(out.String(), 600))
+	o.LogHash, o.Log, o.Steps = log.Hash(), log.lines, log.seq
+	o.Shape = "iso|" + strings.Join(c.Selectors, ",")
+	if kind != "success" {
+		o.Class, o.Msg = "wrong-outcome", fmt.Sprintf("expected success, observed %s: %s", kind, msg)
+		return o
+	}
+	if out.String() != want.String() {
+		o.Class = "selector-root-depends-on-earlier-selectors"
+		o.Msg = fmt.Sprintf("with selectors %v: what a later selector selects reflects changes made while an earlier selector's root was current\n--- expected ---\n%s--- observed ---\n%s", c.Selectors, want.String(), out.String())
+	}
+	return o
+}
+
+var isoDocs = []string{
+	`{"n": 3, "items": [1, 2, 3], "sub": {"n": 7, "items": [5, 6]}}`,
+	`{"n": 1, "items": [], "sub": {"n": 2}}`,
+	`{"n": 4, "items": [8]}`,
+	`{"items": [2, 1], "sub": {"items": [9], "n": 0}}`,
+	`{"n": 9, "items": [7, 7, 7, 7], "sub": {"n": 1, "items": [], "sub": {"n": 5, "items": [3]}}}`,
+}
+var isoSelectors = []string{"$", "$.items", "$.sub", "$.sub.items", "$.n", "$.sub.n", "$.sub.sub", "$.items[0]", "$.zz"}
+
+func isoWorkload(count map[string]int) *Workload {
+	return &Workload{
+		Name:  "selector-isolation",
+		Count: func(tier string) int { return count[tier] },
+		Gen: func(i int, t *Tape, tier string) any {
+			c := &IsoCase{}
+			for k := 1 + t.Draw(3); k > 0; k-- {
+				c.Docs = append(c.Docs, isoDocs[t.Draw(len(isoDocs))])
+			}
+			for k := 1 + t.Draw(4); k > 0; k-- {
+				c.Selectors = append(c.Selectors, isoSelectors[t.Draw(len(isoSelectors))])
+			}
+			return c
+		},
+		Run: func(c any, keep bool) Outcome { return runIsoCase(c.(*IsoCase), keep) },
+		New: func() any { return &IsoCase{} },
+	}
+}
+
 var streamComponents = map[string][]string{
 	"real":      {"jqawk lexer, parser, evaluator, prototypes, runtime (lang.EvalProgram)", "encoding/json Decoder", "Go runtime"},
 	"simulated": {"io.Reader of every input file (SimReader: chunking, zero reads, EOF placement, I/O error, truncation, corruption, stray text)", "stdout io.Writer (SimWriter with global event numbers)"},
@@ -239,6 +426,7 @@ func registerStream() {
 		Workloads: []*Workload{
 			streamWorkload("schedule", map[string]int{"quick": 400000, "thorough": 8000000}, streamGenOpts{mode: "c02", maxFiles: 3, maxVals: 6, selectors: true, benign: true, sigProb: 35}),
 			longInputWorkload(map[string]int{"quick": 16, "thorough": 400}),
+			isoWorkload(map[string]int{"quick": 20000, "thorough": 400000}),
 		},
 	})
 	allFaults := []string{"TRUNC", "EIO", "CORRUPT", "STRAY"}
